@@ -8,4 +8,7 @@ go build -o .build/owcheck ./cmd/owcheck || exit 1
 (cd /repo && go build -o /verif/.build/bin/genny github.com/joelrahman/genny) || exit 1
 (cd /repo && go build -buildmode=c-shared -o /verif/.build/libopenwater.so ./libopenwater) || exit 1
 gcc -O1 -o .build/cabi_driver cabi/driver.c -ldl || exit 1
-echo setup ok
+echo setup: plain builds ok
+./scripts/sched_build.sh >/dev/null || exit 1
+./scripts/owsim_build.sh >/dev/null || exit 1
+echo setup: instrumented builds ok
